@@ -94,7 +94,7 @@ M0(P, orc, regkeys, accs, uf) ==
       [pc |-> 1, status |-> "run", env |-> [i \in 1..P.nv |-> 0], defd |-> {}, ever |-> {},
        last |-> <<>>, ocur |-> 0, scur |-> 0, log |-> <<>>, fault |-> "none", steps |-> 0,
        regs |-> [key \in regkeys |-> [def |-> FALSE, v |-> 0]],
-       cur |-> [a \in accs |-> 0], uf |-> uf, core |-> 0, rd |-> {}, wr |-> {},
+       cur |-> [a \in accs |-> 0], uf |-> uf, core |-> 0, rd |-> {}, wr |-> {}, nalloc |-> 0,
        mem |-> IF P.dma = 1 THEN [a \in 1..P.memtop |-> IF a <= P.srctop THEN a ELSE 0] ELSE <<>>],
       P.args, ArgVals(P, orc))
 
@@ -174,7 +174,7 @@ StepOpaque(P, orc, m, op) ==
       res == [k \in DOMAIN op.r |->
                 LET v == OracleVal(orc, m.ocur + k - 1) IN
                 IF P.w[op.r[k]] = 1 THEN v % 2 ELSE v]
-      m1 == Log(m, [k |-> "op", i |-> m.pc, n |-> op.n, s |-> op.sv, vals |-> vals])
+      m1 == Log(m, [k |-> "op", i |-> m.pc, n |-> op.n, s |-> op.sv, vals |-> vals, iv |-> op.iv])
       m2 == IF HasAccfgEffects(op)
             THEN [m1 EXCEPT !.regs = HavocAll(@), !.cur = [a \in DOMAIN @ |-> 0]] ELSE m1
   IN Adv(Def(P, [m2 EXCEPT !.ocur = @ + Len(op.r)], op.r, res))
@@ -260,10 +260,13 @@ Resolve(stat, dyn, mark, k, acc) ==   \* replace marks in stat by successive ele
        ELSE Resolve(stat, dyn, mark, k, Append(acc, s))
 CountMarks(stat, mark) == Cardinality({i \in DOMAIN stat : stat[i] = mark})
 
+(* P.allocsite = 1: every executed allocation is a distinct buffer (numbered in execution order);
+   P.allocsite = 0: allocations are identified by type and sizes only (loop restructuring may move them) *)
 StepAlloc(P, m, op) ==
   LET sizes == Resolve(op.iv, Vals(m, op.a), -1, 1, <<>>)
-      t == InternAll(m.uf, <<"alloc", <<op.sv[1]>>, sizes>>, 1, <<>>) IN
-  Adv(Def(P, [m EXCEPT !.uf = t[1]], op.r, t[2]))
+      key == IF P.allocsite = 1 THEN sizes \o <<-1 - m.nalloc>> ELSE sizes
+      t == InternAll(m.uf, <<"alloc", <<op.sv[1]>>, key>>, 1, <<>>) IN
+  Adv(Def(P, [m EXCEPT !.uf = t[1], !.nalloc = @ + 1], op.r, t[2]))
 
 StepSubview(P, m, op) ==
   LET rank == Len(op.iv) \div 3
